@@ -154,6 +154,11 @@ func Unmarshal(src, dst any) error {
 	case []any:
 		switch tdst := dst.(type) {
 		case *[]any:
+			if *tdst == nil {
+				// src isn't nil, so the output slice shouldn't be either
+				// (as for every other slice type below).
+				*tdst = make([]any, 0, len(tsrc))
+			}
 			*tdst = append(*tdst, tsrc...)
 
 		default:
